@@ -29,20 +29,20 @@ import (
 var run *fw.Run
 
 var (
-	l11 = tcpip.Address("\x0a\x00\x01\x01") // NIC 1 primary
-	l12 = tcpip.Address("\x0a\x00\x01\x02") // NIC 1 secondary
-	l21 = tcpip.Address("\x0a\x00\x02\x01") // NIC 2
-	r19 = tcpip.Address("\x0a\x00\x01\x09")
-	r18 = tcpip.Address("\x0a\x00\x01\x08")
-	r29 = tcpip.Address("\x0a\x00\x02\x09")
+	l11     = tcpip.Address("\x0a\x00\x01\x01") // NIC 1 primary
+	l12     = tcpip.Address("\x0a\x00\x01\x02") // NIC 1 secondary
+	l21     = tcpip.Address("\x0a\x00\x02\x01") // NIC 2
+	r19     = tcpip.Address("\x0a\x00\x01\x09")
+	r18     = tcpip.Address("\x0a\x00\x01\x08")
+	r29     = tcpip.Address("\x0a\x00\x02\x09")
 	foreign = tcpip.Address("\x0a\x00\x01\x4d")
 )
 
 type world struct {
-	s      *stack.Stack
-	links  [3]*wire.Link // index = NIC id
-	mu     sync.Mutex
-	out    [3][]*wire.Frame
+	s        *stack.Stack
+	links    [3]*wire.Link // index = NIC id
+	mu       sync.Mutex
+	out      [3][]*wire.Frame
 	assigned map[tcpip.NICID]map[tcpip.Address]bool
 }
 
@@ -397,6 +397,96 @@ func scenario(k int) {
 			nOpen++
 		}
 	}
+	// a full connection through one of the listeners, its SYN arriving twice back to back:
+	// the handshake ACK and the data must reach the connection that the SYN created (the
+	// most specific registration), not the listener, and nothing may be reset
+	for _, ls := range socks {
+		if bad || ls.closed || ls.Proto != "tcp-listen" {
+			continue
+		}
+		nic, dst := tcpip.NICID(1), l11
+		if ls.LAddr != "" {
+			dst = ls.LAddr
+			if dst == l21 {
+				nic = 2
+			}
+		}
+		if !w.assigned[nic][dst] || w.expect(socks, "tcp-listen", nic, dst, ls.LPort, r18, 6000) != ls {
+			continue
+		}
+		var s4, d4 [4]byte
+		copy(s4[:], r18)
+		copy(d4[:], dst)
+		sport := uint16(6000 + k%500)
+		send := func(t rfc.TCP, settle bool) {
+			ip := rfc.IPv4{TTL: 64, Proto: rfc.ProtoTCP, ID: 9, Src: s4, Dst: d4, Payload: t.Bytes4(s4, d4, true)}
+			w.links[nic].Inject(ipv4.ProtocolNumber, ip.Bytes(true), "")
+			if settle {
+				rawpeer.Settle()
+			}
+		}
+		replies := func() (out []rfc.TCP) {
+			for id, fs := range w.takeAll() {
+				_ = id
+				for _, f := range fs {
+					if p, err := rfc.ParseIPv4(f.Data); err == nil && p.Proto == rfc.ProtoTCP {
+						if seg, err := rfc.ParseTCP4(p.Payload, p.Src, p.Dst, true); err == nil && seg.DstPort == sport && seg.SrcPort == ls.LPort {
+							out = append(out, seg)
+						}
+					}
+				}
+			}
+			return
+		}
+		w.takeAll()
+		iss := uint32(k)*7919 + 11
+		syn := rfc.TCP{SrcPort: sport, DstPort: ls.LPort, Seq: iss, Flags: rfc.SYN, Window: 20000, RawOpts: rfc.OptMSS(1000)}
+		send(syn, false)
+		send(syn, true)
+		var y uint32
+		got := false
+		for _, seg := range replies() {
+			if seg.Flags&(rfc.SYN|rfc.ACK) == rfc.SYN|rfc.ACK && seg.Ack == iss+1 {
+				y, got = seg.Seq, true
+			}
+		}
+		if !got {
+			viol("tcp/no-synack", fmt.Sprintf("a SYN (delivered twice back to back) for listener %s drew no SYN-ACK", ls))
+			break
+		}
+		send(rfc.TCP{SrcPort: sport, DstPort: ls.LPort, Seq: iss + 1, Ack: y + 1, Flags: rfc.ACK, Window: 20000}, true)
+		ne, _, e := ls.ep.Accept()
+		if e != nil {
+			viol("tcp/handshake-ack-not-delivered-to-the-connection", fmt.Sprintf("listener %s: SYN (twice back to back), SYN-ACK, exact ACK - but Accept has nothing (%v): the ACK did not reach the connection the SYN created; replies: %v", ls, e, replies()))
+			break
+		}
+		rawpeer.Settle()
+		if k%2 == 0 {
+			// long enough for any half-open leftover of the duplicated SYN to time out
+			// (63 s of SYN-ACK retransmissions) and clean up after itself
+			time.Sleep(70 * time.Second)
+			rawpeer.Settle()
+			w.takeAll()
+		}
+		pl := []byte(fmt.Sprintf("conn-%d", k))
+		send(rfc.TCP{SrcPort: sport, DstPort: ls.LPort, Seq: iss + 1, Ack: y + 1, Flags: rfc.ACK | rfc.PSH, Window: 20000, Payload: pl}, true)
+		v, _, e := ne.Read(nil)
+		rs := replies()
+		nrst := 0
+		for _, seg := range rs {
+			if seg.Flags&rfc.RST != 0 {
+				nrst++
+			}
+		}
+		if e != nil || !bytes.Equal(v, pl) || nrst > 0 {
+			viol("tcp/data-not-delivered-to-the-connection", fmt.Sprintf("listener %s: data on the accepted connection: Read returned %q, %v; resets: %d", ls, v, e, nrst))
+		}
+		ne.Close()
+		rawpeer.Settle()
+		w.takeAll()
+		run.Count("tcp_connections_through_listeners_checked", 1)
+		break
+	}
 	if ghost != nil {
 		// the socket whose bind failed is bound somewhere else now: it must be empty
 		if e := ghost.Bind(tcpip.FullAddress{Port: 7010}, nil); e == nil {
@@ -425,10 +515,10 @@ func scenario(k int) {
 // ---- racing phase (real time, -race): registrations and deliveries race ------------
 
 type life struct {
-	owner            int
+	owner              int
 	bindRet, closeCall int64 // logical stamps: Bind returned / Close about to be called
-	got              []uint32
-	gotAt            []int64
+	got                []uint32
+	gotAt              []int64
 }
 
 func racing(k int) {
@@ -441,9 +531,9 @@ func racing(k int) {
 	var mu sync.Mutex
 	var lives []*life
 	type inj struct {
-		id         uint32
-		dst        int
-		call, ret  int64
+		id        uint32
+		dst       int
+		call, ret int64
 	}
 	var injs []inj
 	stop := make(chan struct{})
